@@ -41,12 +41,15 @@ impl<'a> ActionContext for &Cx<'a> {
     fn patch(&self) -> Graph { self.g.new_patch() }
 }
 
-/// one notification through the real Router::run loop while `live_clones - 1` request workers are still alive
-/// (a worker is a thread holding a clone of the router until it has responded; holding the clone is all that matters)
+/// a session of messages through the real Router::run loop.  The outgoing channel has capacity 0, so a request worker
+/// that has computed its answer stays in flight (blocked in respond, holding its clone of the router) until this driver
+/// reads the response: {"request":"alive"} is such a request, {"request":"done"} is a request whose worker ends at once
+/// (unsupported method).  After every notification the outstanding responses are read, as any client does.
 fn run_router(op: &Value) -> Value {
     use iwes::router::{LspClient, Router, ServerConfig};
     use lsp_server::{Message, Notification, Request, RequestId};
-    let (to_client_tx, to_client_rx) = crossbeam_channel::unbounded::<Message>();
+    use std::time::Duration;
+    let (to_client_tx, to_client_rx) = crossbeam_channel::bounded::<Message>(0);
     let (to_server_tx, to_server_rx) = crossbeam_channel::unbounded::<Message>();
     let mut state = HashMap::new();
     state.insert("a".to_string(), "# T1\n\nT2\n".to_string());
@@ -58,46 +61,64 @@ fn run_router(op: &Value) -> Value {
         configuration: Default::default(),
         lsp_client: LspClient::Unknown,
     });
-    let n = op["live_clones"].as_u64().unwrap_or(1);
-    // each in-flight request worker holds a clone for a while, then finishes
-    let workers: Vec<std::thread::JoinHandle<()>> = (1..n)
-        .map(|_| {
-            let held = router.clone();
-            std::thread::spawn(move || {
-                std::thread::sleep(std::time::Duration::from_millis(300));
-                drop(held);
-            })
-        })
-        .collect();
-    let key = op["key"].as_str().unwrap();
-    let uri = format!("file:///basepath/{}.md", key);
-    let kind = op["kind"].as_str().unwrap();
-    let note = match kind {
-        "didChange" => Some(Notification { method: "textDocument/didChange".into(), params: json!({"textDocument": {"uri": uri, "version": 2}, "contentChanges": [{"text": "NEWTEXT one\n\nNEWTEXT two\n"}]}) }),
-        "didSave+text" => Some(Notification { method: "textDocument/didSave".into(), params: json!({"textDocument": {"uri": uri}, "text": "NEWTEXT one\n\nNEWTEXT two\n"}) }),
-        "didSave" => Some(Notification { method: "textDocument/didSave".into(), params: json!({"textDocument": {"uri": uri}}) }),
-        "other" => Some(Notification { method: "$/setTrace".into(), params: json!({"value": "off"}) }),
-        _ => None,
-    };
-    if let Some(nf) = note {
-        to_server_tx.send(Message::Notification(nf)).unwrap();
-    }
-    to_server_tx.send(Message::Request(Request { id: RequestId::from(1), method: "textDocument/formatting".into(),
-        params: json!({"textDocument": {"uri": uri}, "options": {"tabSize": 2, "insertSpaces": true}}) })).unwrap();
     let h = std::thread::spawn(move || { let _ = router.run(to_server_rx); });
-    let resp = to_client_rx.recv_timeout(std::time::Duration::from_secs(15));
+    let mut next_id = 1;
+    let mut outstanding = 0;
+    let mut keys: Vec<String> = vec!["a".into(), "b".into()];
+    let drain = |outstanding: &mut i32| {
+        while *outstanding > 0 {
+            match to_client_rx.recv_timeout(Duration::from_secs(5)) {
+                Ok(_) => *outstanding -= 1,
+                Err(_) => break,
+            }
+        }
+    };
+    for st in op["steps"].as_array().unwrap() {
+        if let Some(r) = st.get("request").and_then(|r| r.as_str()) {
+            let alive = r == "alive";
+            let method = if alive { "textDocument/inlayHint" } else { "textDocument/hover" };
+            let params = if alive { json!({"textDocument": {"uri": "file:///basepath/b.md"}, "range": {"start": {"line": 0, "character": 0}, "end": {"line": 9, "character": 0}}}) } else { json!({}) };
+            to_server_tx.send(Message::Request(Request { id: RequestId::from(next_id), method: method.into(), params })).unwrap();
+            next_id += 1;
+            if alive { outstanding += 1; }
+            std::thread::sleep(Duration::from_millis(120));
+        } else if let Some(kind) = st.get("note").and_then(|r| r.as_str()) {
+            let key = st["key"].as_str().unwrap();
+            if !keys.iter().any(|k| k == key) { keys.push(key.to_string()); }
+            let uri = format!("file:///basepath/{}.md", key);
+            let text = st["text"].as_str().unwrap_or("");
+            let note = match kind {
+                "didChange" => Some(Notification { method: "textDocument/didChange".into(), params: json!({"textDocument": {"uri": uri, "version": st["version"].as_i64().unwrap_or(1)}, "contentChanges": [{"text": text}]}) }),
+                "didSave+text" => Some(Notification { method: "textDocument/didSave".into(), params: json!({"textDocument": {"uri": uri}, "text": text}) }),
+                "didSave" => Some(Notification { method: "textDocument/didSave".into(), params: json!({"textDocument": {"uri": uri}}) }),
+                "other" => Some(Notification { method: "$/setTrace".into(), params: json!({"value": "off"}) }),
+                _ => None,      // exit is sent at the end
+            };
+            if let Some(nf) = note {
+                to_server_tx.send(Message::Notification(nf)).unwrap();
+            }
+            std::thread::sleep(Duration::from_millis(200));     // the notification meets the workers that are still in flight
+            drain(&mut outstanding);
+            std::thread::sleep(Duration::from_millis(100));
+        }
+    }
+    drain(&mut outstanding);
+    // idle: ask for every note
+    let mut texts = serde_json::Map::new();
+    for key in keys {
+        let uri = format!("file:///basepath/{}.md", key);
+        to_server_tx.send(Message::Request(Request { id: RequestId::from(next_id), method: "textDocument/formatting".into(),
+            params: json!({"textDocument": {"uri": uri}, "options": {"tabSize": 2, "insertSpaces": true}}) })).unwrap();
+        next_id += 1;
+        let t = match to_client_rx.recv_timeout(Duration::from_secs(10)) {
+            Ok(Message::Response(r)) => r.result.map(|v| v.to_string()).unwrap_or_default(),
+            _ => String::new(),
+        };
+        texts.insert(key, json!(t.chars().take(300).collect::<String>()));
+    }
     let _ = to_server_tx.send(Message::Notification(Notification { method: "exit".into(), params: json!(null) }));
     let _ = h.join();
-    for w in workers {
-        let _ = w.join();
-    }
-    match resp {
-        Ok(Message::Response(r)) => {
-            let text = r.result.map(|v| v.to_string()).unwrap_or_default();
-            json!({"applied": text.contains("NEWTEXT"), "answer": text.chars().take(200).collect::<String>()})
-        }
-        other => json!({"applied": false, "answer": format!("{:?}", other.map(|_| "non-response"))}),
-    }
+    json!({"texts": texts})
 }
 
 /// drive the real request handlers of iwes::router::server::Server
@@ -505,7 +526,7 @@ fn run_op(st: &mut St, op: &Value) -> Value {
         }
         "arena" => arena_json(gr(st)),
         "server" => run_server(op),
-        "router_notification" => run_router(op),
+        "router_session" => run_router(op),
         "action" => run_action(gr(st), op["provider"].as_str().unwrap(), op["target"].as_u64().unwrap()),
         "keys" => {
             let mut m = serde_json::Map::new();
